@@ -807,7 +807,9 @@ def all_cases(rng, tier, M):
 
 
 def run(ck):
-    ck.build_proofs()
+    # Sched/ParseGenProofs.v: the text regenerated from the adapters' source (Sched/ParseGen.v, translate/
+    # tcode_sched.py) is proved equal, function by function, to the model the theorems are about
+    ck.build_proofs(extra_targets=["theories/Sched/ParseGenProofs.vo"])
     ok, out = common.coq_make(["theories/Sched/Parse.vo"])
     if not ok:
         ck.proof_failures.append(("model Sched/Parse.v does not build against the regenerated tables", out[-3000:]))
@@ -815,6 +817,10 @@ def run(ck):
     from translate import regen
     gs = regen.status().get("tdata_sched", {})
     ck.notes["tdata_sched"] = "regenerated" if gs.get("ok") else "NOT TRANSLATABLE: %s" % gs.get("not_translatable")
+    gc = regen.status().get("tcode_sched", {})
+    ck.notes["tcode_sched"] = ("regenerated (changed: %s)" % gc.get("changed")) if gc.get("ok") else \
+        "NOT TRANSLATABLE (committed Sched/ParseGen.v stands; correspondence run carries the tie): %s" % \
+        gc.get("not_translatable")
     M = manual_lists()
     impl = Impl()
     ck.notes["flux_state_obtained_by"] = impl.flux_how
